@@ -2,7 +2,7 @@
    every configuration), built on the per-call lemmas of PReq / PRes, and the statement that the model's
    own observations are accepted by the extracted checkers of Spec/SConnp.v (the oracles that are run on
    the implementation's output). *)
-Require Import Htp.Model.MConnTypes Htp.Model.MTxCommon Htp.Model.MReq Htp.Model.MRes Htp.Model.MConnp
+Require Import Htp.Model.MConnTypes Htp.Model.MTxCommon Htp.Model.MTxRes Htp.Model.MReq Htp.Model.MRes Htp.Model.MConnp
                Htp.Spec.SConnp Htp.Proof.PReq Htp.Proof.PRes.
 Local Open Scope Z_scope.
 
@@ -442,5 +442,105 @@ Qed.
 Theorem tx_freed_no_leading_null c :
   match c_txs (fst (connp_tx_freed c)) with None :: _ => False | _ => True end.
 Proof. unfold connp_tx_freed. apply tx_freed_loop_head. lia. Qed.
+
+(* ---- C16: CONNECT / tunnel ---- *)
+(* what a data call may change when it is turned away after the chunk was registered: cursor and counters only *)
+Definition same_but_cursor_in (c c' : connp) : Prop :=
+  c_events c' = c_events c /\ c_txs c' = c_txs c /\ c_in_status c' = c_in_status c /\ c_out_status c' = c_out_status c /\
+  c_in_state c' = c_in_state c /\ c_out_state c' = c_out_state c /\ c_in_tx c' = c_in_tx c /\ c_out_tx c' = c_out_tx c /\
+  k_buf (c_in c') = k_buf (c_in c) /\ k_header (c_in c') = k_header (c_in c) /\ c_out c' = c_out c.
+
+Definition req_guards_pass (c : connp) (len : nat) : Prop :=
+  c_in_status c <> c_HTP_STREAM_STOP /\ c_in_status c <> c_HTP_STREAM_ERROR /\
+  (c_in_tx c <> None \/ c_in_state c = REQ_IDLE) /\ (0 < len)%nat.
+
+Lemma req_guards_reduce len c (X : connp * Z) :
+  req_guards_pass c len ->
+  (if c_in_status c =? c_HTP_STREAM_STOP then (c, c_HTP_STREAM_STOP)
+   else if c_in_status c =? c_HTP_STREAM_ERROR then (c, c_HTP_STREAM_ERROR)
+   else if match c_in_tx c with None => negb (req_state_eqb (c_in_state c) REQ_IDLE) | Some _ => false end
+   then (c <| c_in_status := c_HTP_STREAM_ERROR |>, c_HTP_STREAM_ERROR)
+   else if (len =? 0)%nat && negb (c_in_status c =? c_HTP_STREAM_CLOSED) then (c, c_HTP_STREAM_CLOSED)
+   else X) = X.
+Proof.
+  intros (H1 & H2 & H3 & H4).
+  apply Z.eqb_neq in H1. apply Z.eqb_neq in H2. rewrite H1, H2.
+  assert (E3 : match c_in_tx c with None => negb (req_state_eqb (c_in_state c) REQ_IDLE) | Some _ => false end = false).
+  { destruct (c_in_tx c); [reflexivity|]. destruct H3 as [H3|H3]; [congruence|]. rewrite H3. reflexivity. }
+  rewrite E3. assert (E4 : (len =? 0)%nat = false) by (apply Nat.eqb_neq; lia). rewrite E4. reflexivity.
+Qed.
+
+(* once the request direction is in TUNNEL a data call returns TUNNEL: no callback, no transaction, no state change *)
+Theorem tunnel_absorbing_req data len c :
+  c_in_status c = c_HTP_STREAM_TUNNEL -> (c_in_tx c <> None \/ c_in_state c = REQ_IDLE) -> (0 < len)%nat ->
+  snd (connp_req_data cb g data len c) = c_HTP_STREAM_TUNNEL /\ same_but_cursor_in c (fst (connp_req_data cb g data len c)).
+Proof.
+  intros Ht Hg Hl. unfold connp_req_data.
+  rewrite req_guards_reduce.
+  - cbv zeta. cbn. rewrite Ht. cbn. unfold same_but_cursor_in. cbn. repeat split; reflexivity.
+  - unfold req_guards_pass. rewrite Ht. repeat split; try (intro H; vm_compute in H; discriminate); assumption.
+Qed.
+
+(* after a CONNECT request the request direction consumes nothing until the response line has been seen:
+   the call returns DATA_OTHER with a consumed count of 0, runs no callback and changes no transaction *)
+Theorem connect_suspends i d c :
+  c_in_state c = REQ_CONNECT_WAIT_RESPONSE -> c_in_tx c = Some i ->
+  t_response_progress (tx_get c i) <= c_HTP_RESPONSE_LINE ->
+  c_in_status c <> c_HTP_STREAM_STOP -> c_in_status c <> c_HTP_STREAM_ERROR -> c_in_status c <> c_HTP_STREAM_TUNNEL ->
+  d <> [] ->
+  let r := connp_req_data cb g (Some d) (length d) c in
+  snd r = c_HTP_STREAM_DATA_OTHER /\ k_read (c_in (fst r)) = 0%nat /\ c_events (fst r) = c_events c /\ c_txs (fst r) = c_txs c /\
+  c_in_state (fst r) = REQ_CONNECT_WAIT_RESPONSE.
+Proof.
+  intros Hs Hi Hp H1 H2 H3 Hd r. subst r.
+  assert (Hl : (0 < length d)%nat) by (destruct d; [congruence|cbn; lia]).
+  unfold connp_req_data.
+  rewrite req_guards_reduce by (unfold req_guards_pass; repeat split; try assumption; left; congruence).
+  cbv zeta.
+  set (c1 := rq_set_in _ c). set (c2 := c1 <| c_in_chunk_count ::= S |> <| c_in_data_counter ::= Z.add (Z.of_nat (length d)) |>).
+  assert (E : (c_in_status c2 =? c_HTP_STREAM_TUNNEL) = false) by (apply Z.eqb_neq; exact H3). rewrite E.
+  set (c3 := if c_out_status c2 =? c_HTP_STREAM_DATA_OTHER then c2 <| c_out_status := c_HTP_STREAM_DATA |> else c2).
+  assert (F3 : c_in_state c3 = REQ_CONNECT_WAIT_RESPONSE /\ c_in_tx c3 = Some i /\ c_txs c3 = c_txs c /\ c_txs_shifted c3 = c_txs_shifted c /\
+               c_events c3 = c_events c /\ k_read (c_in c3) = 0%nat /\ k_len (c_in c3) = length d).
+  { subst c3. destruct (c_out_status c2 =? c_HTP_STREAM_DATA_OTHER); cbn; repeat split; assumption. }
+  destruct F3 as (S3 & I3 & T3 & Sh3 & E3 & R3 & L3).
+  destruct (rq_fuel (length d)) as [|f] eqn:Ef; [unfold rq_fuel in Ef; lia|].
+  cbn [rq_loop]. unfold rq_iter. rewrite S3. cbn [rq_state_fn].
+  unfold REQ_CONNECT_WAIT_RESPONSE_fn, rq_tx, in_txi. rewrite I3.
+  assert (Tg : tx_get c3 i = tx_get c i) by (unfold tx_get, tx_slot; rewrite T3, Sh3; reflexivity).
+  rewrite Tg. apply Z.leb_le in Hp. rewrite Hp.
+  unfold rq_exit, rq_at_end. rewrite R3, L3.
+  assert (El : (length d <=? 0)%nat = false) by (apply Nat.leb_gt; lia). rewrite El. cbn. repeat split; assumption.
+Qed.
+
+(* when the answer to CONNECT has been seen: a 2xx answer moves on to probing the tunnel payload, anything else resumes
+   normal parsing at REQ_FINALIZE; in both cases the state function itself consumes nothing *)
+Theorem connect_wait_decides c :
+  c_HTP_RESPONSE_LINE < t_response_progress (rq_tx c) ->
+  REQ_CONNECT_WAIT_RESPONSE_fn c =
+    (ST_OK, c <| c_in_state := if (200 <=? t_response_status_number (rq_tx c)) && (t_response_status_number (rq_tx c) <=? 299)
+                               then REQ_CONNECT_PROBE_DATA else REQ_FINALIZE |>).
+Proof.
+  intros H. unfold REQ_CONNECT_WAIT_RESPONSE_fn.
+  assert (E : (t_response_progress (rq_tx c) <=? c_HTP_RESPONSE_LINE) = false) by (apply Z.leb_gt; exact H).
+  rewrite E. destruct ((200 <=? _) && (_ <=? 299)); reflexivity.
+Qed.
+
+Definition same_but_cursor_out (c c' : connp) : Prop :=
+  c_events c' = c_events c /\ c_txs c' = c_txs c /\ c_in_status c' = c_in_status c /\ c_out_status c' = c_out_status c /\
+  c_in_state c' = c_in_state c /\ c_out_state c' = c_out_state c /\ c_in_tx c' = c_in_tx c /\ c_out_tx c' = c_out_tx c /\
+  k_buf (c_out c') = k_buf (c_out c) /\ k_header (c_out c') = k_header (c_out c) /\ c_in c' = c_in c.
+
+Theorem tunnel_absorbing_res data len c :
+  c_out_status c = c_HTP_STREAM_TUNNEL -> (c_out_tx c <> None \/ c_out_state c = RES_IDLE) -> (0 < len)%nat ->
+  snd (connp_res_data cb g data len c) = c_HTP_STREAM_TUNNEL /\ same_but_cursor_out c (fst (connp_res_data cb g data len c)).
+Proof.
+  intros Ht Hg Hl. unfold connp_res_data. rewrite Ht.
+  change (c_HTP_STREAM_TUNNEL =? c_HTP_STREAM_STOP) with false. change (c_HTP_STREAM_TUNNEL =? c_HTP_STREAM_ERROR) with false. cbv iota.
+  assert (E3 : match c_out_tx c with None => negb (res_state_eqb (c_out_state c) RES_IDLE) | Some _ => false end = false).
+  { destruct (c_out_tx c); [reflexivity|]. destruct Hg as [Hg|Hg]; [congruence|]. rewrite Hg. reflexivity. }
+  rewrite E3. assert (E4 : (len =? 0)%nat = false) by (apply Nat.eqb_neq; lia). rewrite E4. cbn [andb]. cbv iota zeta.
+  unfold rs_set_out. cbn. rewrite Ht. cbn. unfold same_but_cursor_out. cbn. repeat split; reflexivity.
+Qed.
 
 End P.
